@@ -12,3 +12,16 @@ Definition run_interp (c : Q * list Q * list Q) : val :=
 (* outcome class only (for float cases, where the value is compared in the harness): true = Ok *)
 Definition run_interp_class (c : Q * list Q * list Q) : val :=
   let '(xd, x, y) := c in vres (fun _ => VB true) (linear_interp xd x y).
+
+(* mass environment: (batch size, out, masses, neighbour lists, sign) -> out after msum_in_batches *)
+From Abacus.C11 Require Import MenvModel.
+Definition run_menv (c : Z * list Q * list Q * list (list Z) * Q) : val :=
+  let '(bs, out, masses, lists, sign) := c in
+  vres vlistQ (msum_in_batches (length out) (Z.to_nat bs) out masses lists sign).
+
+(* the kernel on arbitrary offsets: (out, masses, inds, starts, sign) *)
+Definition run_menv_core (c : list Q * list Q * list Z * list Z * Q) : val :=
+  let '(out, masses, inds, starts, sign) := c in vres vlistQ (msum_core out masses inds starts sign).
+
+Definition run_menv_concat (lists : list (list Z)) : val :=
+  vres (fun r => VL [vlistZ (fst r); vlistZ (snd r)]) (concat_to_arr lists).
